@@ -9,27 +9,26 @@ use proptest::prelude::*;
 type Src = (u8, Vec<u64>);
 type Case = (Vec<Src>, u32, u8, u16);
 
-fn msg(src: u16, pos: u16, rt: u64, idx: u32) -> DltMessage {
+/// the (source, position) tag travels in the lifecycle field, which the iterators do not look at; `twins`: apart
+/// from the tag all messages with the same reception time are identical (the same file given twice, overlapping recordings)
+fn msg(src: u16, pos: u16, rt: u64, idx: u32, twins: bool) -> DltMessage {
     DltMessage {
         index: idx,
         reception_time_us: rt,
-        ecu: DltChar4::from_buf(&[b'E', b'0' + (src % 3) as u8, 0, 0]),
-        timestamp_dms: pos as u32,
-        standard_header: DltStandardHeader { htyp: 0x21, mcnt: pos as u8, len: 0 },
-        extended_header: None,
-        payload: vec![(src >> 8) as u8, src as u8, (pos >> 8) as u8, pos as u8],
-        payload_text: None,
-        lifecycle: 0,
+        ecu: DltChar4::from_buf(&[b'E', if twins { b'0' } else { b'0' + (src % 3) as u8 }, 0, 0]),
+        timestamp_dms: if twins { 7 } else { pos as u32 },
+        standard_header: DltStandardHeader { htyp: 0x21, mcnt: if twins { 1 } else { pos as u8 }, len: 0 },
+        extended_header: Some(DltExtendedHeader { verb_mstp_mtin: 0x41, noar: 0, apid: DltChar4::from_buf(b"APID"), ctid: DltChar4::from_buf(b"CTID") }),
+        payload: if twins { vec![1, 2, 3, 4] } else { vec![(src >> 8) as u8, src as u8, (pos >> 8) as u8, pos as u8] },
+        payload_text: if pos % 5 == 0 { Some("text".to_string()) } else { None },
+        lifecycle: ((src as u32) << 16) | pos as u32,
     }
 }
 fn tag(m: &DltMessage) -> (usize, i64) {
-    (
-        ((m.payload[0] as usize) << 8) | m.payload[1] as usize,
-        ((m.payload[2] as i64) << 8) | m.payload[3] as i64,
-    )
+    ((m.lifecycle >> 16) as usize, (m.lifecycle & 0xffff) as i64)
 }
 
-fn lists(srcs: &[Src], empties_at: u16, start: u32) -> Vec<Vec<DltMessage>> {
+fn lists(srcs: &[Src], empties_at: u16, start: u32, twins: bool) -> Vec<Vec<DltMessage>> {
     // optionally insert a long run of empty sources (recursion per empty source in SequentialMultiIterator)
     let mut out: Vec<Vec<DltMessage>> = vec![];
     for (i, (mode, deltas)) in srcs.iter().enumerate() {
@@ -52,7 +51,7 @@ fn lists(srcs: &[Src], empties_at: u16, start: u32) -> Vec<Vec<DltMessage>> {
                         _ => t += d % 2,                       // many ties
                     };
                     // single source variant: callers number the source from the start index
-                    msg(s, p as u16, t, start.wrapping_add(p as u32))
+                    msg(s, p as u16, t, start.wrapping_add(p as u32), twins)
                 })
                 .collect(),
         );
@@ -62,8 +61,10 @@ fn lists(srcs: &[Src], empties_at: u16, start: u32) -> Vec<Vec<DltMessage>> {
 
 fn check(v: &Case, rep: &mut Rep) -> Result<(), String> {
     let (srcs, start, variant, empties) = v;
-    let lists = lists(srcs, *empties, *start);
-    let all_sorted = srcs.iter().all(|(m, _)| *m != 2);
+    let twins = variant & 4 == 4;
+    let lists = lists(srcs, *empties, *start, twins);
+    let all_sorted = lists.iter().all(|l| l.windows(2).all(|w| w[0].reception_time_us <= w[1].reception_time_us));
+    rep.label_if(twins, "identical_messages_across_sources");
     let total: usize = lists.iter().map(|l| l.len()).sum();
     let nonempty = lists.iter().filter(|l| !l.is_empty()).count();
     // ties across sources?
@@ -112,7 +113,7 @@ fn check(v: &Case, rep: &mut Rep) -> Result<(), String> {
         ensure!(p == lastpos[s] + 1, "merge: per-source order/dup/loss: source {} pos {} after {}", s, p, lastpos[s]);
         lastpos[s] = p;
         let orig = &lists[s][p as usize];
-        ensure!(orig.reception_time_us == m.reception_time_us && orig.payload == m.payload && orig.timestamp_dms == m.timestamp_dms && orig.ecu == m.ecu, "merge: message altered");
+        ensure!(DltMessage { index: m.index, ..orig.clone() } == *m, "merge: message altered (apart from its index): {:?} -> {:?}", orig, m);
     }
     if all_sorted {
         for w in out.windows(2) {
@@ -120,7 +121,13 @@ fn check(v: &Case, rep: &mut Rep) -> Result<(), String> {
         }
     }
     // --- sequential chain
-    let out2: Vec<DltMessage> = if variant & 2 == 2 {
+    let out2: Vec<DltMessage> = if variant & 2 == 2 && variant & 8 == 8 && lists.len() >= 2 {
+        // an outer iterator whose size hint is not exact: (1, Some(n))
+        rep.label("inexact_size_hint");
+        let mut its = mk(&lists).into_iter();
+        let first = its.next().unwrap();
+        SequentialMultiIterator::new_or_single_it(*start, std::iter::once(first).chain(its.filter(|_| true))).collect()
+    } else if variant & 2 == 2 {
         SequentialMultiIterator::new_or_single_it(*start, mk(&lists).into_iter()).collect()
     } else {
         SequentialMultiIterator::new(*start, mk(&lists).into_iter()).collect()
@@ -128,7 +135,7 @@ fn check(v: &Case, rep: &mut Rep) -> Result<(), String> {
     let concat: Vec<&DltMessage> = lists.iter().flat_map(|l| l.iter()).collect();
     ensure_eq!(out2.len(), concat.len(), "chain: number of messages");
     for (i, (a, b)) in out2.iter().zip(concat.iter()).enumerate() {
-        ensure!(a.payload == b.payload && a.reception_time_us == b.reception_time_us, "chain: message #{} is not the concatenation", i);
+        ensure!(DltMessage { index: a.index, ..(*b).clone() } == *a, "chain: message #{} is not the (unaltered) message of the concatenation", i);
         ensure_eq!(a.index, start.wrapping_add(i as u32), "chain: index of #{}", i);
     }
     Ok(())
@@ -139,7 +146,7 @@ pub fn def(tier: Tier) -> PropertyDef {
     let strat = (
         prop::collection::vec(src, 0..9),
         prop_oneof![Just(0u32), 0u32..1000, 0u32..(u32::MAX - 100_000)],
-        0u8..4,
+        0u8..16,
         prop_oneof![6 => Just(0u16), 3 => 1u16..5, 1 => 5u16..2000],
     );
     PropertyDef {
@@ -147,7 +154,7 @@ pub fn def(tier: Tier) -> PropertyDef {
         rule: "0..8 sources x 0..39 messages with reception times non-decreasing / all equal / unordered / many ties, optional runs of up to 2000 empty sources, arbitrary start index, both constructors and both new_or_single_it variants; messages tagged (source, position); oracle: permutation, per-source order, consecutive indices, ordered output if all sources ordered, chain = concatenation. Non-trivial: >=2 non-empty sources and (cross-source tie or empty source between non-empty ones).",
         assumptions: vec!["for the single source short cut (start index documented as ignored) sources are numbered from the start index as the callers do"],
         subs: vec![sub("merge_and_chain", tier.pick(1_500_000, 20_000_000), strat, check)
-            .rates(&[("cross_source_tie", 0.2), ("empty_source_between", 0.1), ("single_source", 0.03)])
+            .rates(&[("cross_source_tie", 0.2), ("empty_source_between", 0.1), ("single_source", 0.03), ("identical_messages_across_sources", 0.3), ("inexact_size_hint", 0.1)])
             .boxed()],
         workers: 16,
     }
